@@ -162,3 +162,17 @@ def check_async_with(ctx, rule: str, cls: str):
         raise AnalysisError(f"{rule}: {cls}.__aenter__/__aexit__ not found")
     dominates_all_exits(ctx, rule, ae, "await self.acquire()", f"{cls}.__aenter__ acquires on every path")
     dominates_all_exits(ctx, rule, ax, "self.release()", f"{cls}.__aexit__ releases on every path, whatever the block raised", count=1)
+    # nothing can fail between a successful acquire and the block: `async with` runs __aexit__ only if __aenter__ returned, so an
+    # exception raised by __aenter__ after the acquire (a second checkpoint, say) leaves the primitive held by a task that is gone
+
+    def step(st, e, c):
+        if e == "acq" and not c.is_exc:
+            return True
+        return st
+
+    def at_exit(kind, st, facts):
+        if st and kind != "return":
+            return f"{cls}.__aenter__ can raise after acquire() succeeded: __aexit__ is never run, the primitive stays acquired"
+        return None
+
+    ctx.paths(rule, ae, [("acq", "await self.acquire()")], step, False, at_exit, native=True, instance=f"{cls}.__aenter__ cannot fail once it has acquired")
